@@ -202,8 +202,24 @@ func runC37(c *Ctx) {
 		nScan, nWrite := 0, 0
 		why := ""
 		loops := loopsOf(sf)
+		// the loop's region: its natural-loop blocks plus the exit paths that leave
+		// from inside the body (a "break" branch is dominated by a body block, the
+		// code after the loop only by the header)
+		inRegion := func(b *ssa.BasicBlock) bool {
+			if innermost(loops, b) != nil {
+				return true
+			}
+			for _, l := range loops {
+				for x := range l.blocks {
+					if x != l.header && x.Dominates(b) {
+						return true
+					}
+				}
+			}
+			return false
+		}
 		for _, b := range sf.Blocks {
-			if innermost(loops, b) == nil {
+			if !inRegion(b) {
 				continue
 			}
 			for _, in := range b.Instrs {
